@@ -4,6 +4,7 @@ pub mod hashes;
 pub mod bg4;
 pub mod xorb;
 pub mod shard;
+pub mod deduper;
 pub mod interp_search;
 
 pub fn run(suite: &str, ctx: &mut Ctx) -> bool {
@@ -12,6 +13,8 @@ pub fn run(suite: &str, ctx: &mut Ctx) -> bool {
         "hashes" => hashes::run(ctx),
         "bg4" => bg4::run(ctx),
         "shard" => shard::run(ctx),
+        "deduper" => deduper::run_parent(ctx),
+        "deduper-child" => deduper::run_child(ctx),
         "interp_search" => interp_search::run(ctx),
         "xorb" => xorb::run_roundtrip(ctx),
         "xorb_validate" => xorb::run_validate(ctx),
